@@ -108,6 +108,89 @@ SKELETONS = [
 ]
 
 
+# parser skeletons: short concrete programs with ONE hole of free symbolic bytes (`?` = one byte) at a syntactically interesting
+# position; the whole text is only assumed to be well-formed UTF-8.  (id, text, tier in which the skeleton is first run: the quick
+# tier runs the "quick" ones, the thorough tier all 1-byte holes and, while the time budget permits, the 2-byte holes in list order.)
+# A hole in token-start position forks ~36 ways per byte and every path re-executes lexer + parser on the whole skeleton.
+# Two-character operators (`=>`, `->`, `::`, `..`) cannot arise from a 1-byte hole: the `*-op` skeletons fix the first byte.
+PARSE_SKELETONS = [
+    ("postfix-dot", "fn f(){a.?}", "quick"),
+    ("postfix-dot-semi", "fn f(){a.?;}", "quick"),
+    ("postfix-dot-call", "fn f(){a.?()}", "thorough"),
+    ("param", "fn f(?){}", "quick"),
+    ("param-op", "fn f(=?){}", "quick"),
+    ("param-second", "fn f(a:B,?){}", "quick"),
+    ("param-type", "fn f(a:?){}", "quick"),
+    ("param-close", "fn f(a:B?{}", "thorough"),
+    ("ret-type", "fn f():?{}", "quick"),
+    ("type-params", "fn f[?](){}", "quick"),
+    ("where", "fn f() where ?{}", "thorough"),
+    ("let-pattern", "fn f(){let ?=1;}", "quick"),
+    ("let-type", "fn f(){let a:?=1;}", "quick"),
+    ("let-init", "fn f(){let a=?;}", "quick"),
+    ("match-pattern", "fn f(){match a{?=>1}}", "quick"),
+    ("match-pattern-op", "fn f(){match a{=?1}}", "thorough"),
+    ("match-body", "fn f(){match a{b=>?}}", "quick"),
+    ("lambda-param", "fn f(){|?|1}", "quick"),
+    ("lambda-param-op", "fn f(){| =?|1}", "quick"),
+    ("for-pattern", "fn f(){for ? in a{}}", "thorough"),
+    ("is-pattern", "fn f(){a is ?}", "quick"),
+    ("as-type", "fn f(){a as ?}", "thorough"),
+    ("path-tail", "fn f(){a::?}", "quick"),
+    ("type-path-tail", "fn f(a:b::?){}", "quick"),
+    ("type-args", "fn f(a:B[?]){}", "quick"),
+    ("index", "fn f(){a[?]}", "thorough"),
+    ("modifier", "@?fn f(){}", "quick"),
+    ("modifier-second", "@pub ? fn f(){}", "thorough"),
+    ("use-tail", "use a::?;", "quick"),
+    ("use-group", "use a::{b,?};", "quick"),
+    ("use-as", "use a as ?;", "thorough"),
+    ("struct-body", "struct S{?}", "quick"),
+    ("struct-field-type", "struct S{a:?}", "quick"),
+    ("tuple-struct", "struct S(?)", "thorough"),
+    ("enum-body", "enum E{?}", "quick"),
+    ("enum-variant-args", "enum E{A(?)}", "thorough"),
+    ("class-body", "class C{?}", "thorough"),
+    ("trait-body", "trait T{?}", "thorough"),
+    ("impl-body", "impl T for S{?}", "thorough"),
+    ("impl-head", "impl ? for S{}", "thorough"),
+    ("top-level", "?fn f(){}", "thorough"),
+    ("const", "const A:?=1;", "thorough"),
+    ("global-init", "let a:B=?;", "thorough"),
+    ("alias", "type A=?;", "thorough"),
+    ("extern", "extern ? fn f();", "thorough"),
+    ("stmt-start", "fn f(){?}", "quick"),
+    ("stmt-second", "fn f(){a;?}", "thorough"),
+    ("binop", "fn f(){a?b}", "quick"),
+    ("binop-rhs", "fn f(){a+?}", "quick"),
+    ("unary", "fn f(){-?}", "thorough"),
+    ("call-arg", "fn f(){g(?)}", "quick"),
+    ("named-arg", "fn f(){g(a=?)}", "thorough"),
+    ("tuple", "fn f(){(a,?)}", "thorough"),
+    ("if-cond", "fn f(){if ?{}}", "thorough"),
+    ("while-cond", "fn f(){while ?{}}", "thorough"),
+    ("template-hole", 'fn f(){"a${?}"}', "quick"),
+    ("close-paren", "fn f(){g(a?}", "quick"),
+    ("close-brace", "fn f(){a?", "quick"),
+    ("close-bracket", "fn f(){a[1?}", "quick"),
+    # holes of two bytes (~1300 paths each)
+    ("param-2", "fn f(??){}", "thorough"),
+    ("lambda-param-2", "fn f(){|??|1}", "thorough"),
+    ("postfix-dot-2", "fn f(){a.??}", "thorough"),
+    ("match-pattern-2", "fn f(){match a{??=>1}}", "thorough"),
+    ("let-pattern-2", "fn f(){let ??=1;}", "thorough"),
+    ("param-type-2", "fn f(a:??){}", "thorough"),
+    ("use-tail-2", "use a::??;", "thorough"),
+    ("binop-2", "fn f(){a??b}", "thorough"),
+    ("struct-body-2", "struct S{??}", "thorough"),
+    ("stmt-start-2", "fn f(){??}", "thorough"),
+]
+
+
+def parse_skeleton_body(par, lay, pid, sid, pat):
+    return parse_spec_body(par, lay, pid, "parse-skel", "parse-skel/%s %r" % (sid, pat), skeleton_spec(pat, 1))
+
+
 # ------------------------------------------------------------------------------------------
 # loading
 
@@ -773,13 +856,18 @@ def green_walk(node, dump, toks, conds):
 
 
 def parse_body(par, lay, pid, L):
+    return parse_spec_body(par, lay, pid, "parse", "parse/L=%d" % L, [None] * L)
+
+
+def parse_spec_body(par, lay, pid, family, label, spec):
+    """the real Parser::from_string(text).parse() on the text `spec` (concrete bytes, None = symbolic byte)"""
     it = make_interp(par, lay, parser=True, progress_observer=True)
+    L = len(spec)
 
     def body(ctx, out):
         set_bound(ctx, out, parse_bound(L))
-        spec = [None] * L
         bs, inputs = text_value(ctx, spec)
-        A = Asserter(pid, out, ctx, inputs, {"family": "parse", "label": "parse/L=%d" % L, "spec": spec})
+        A = Asserter(pid, out, ctx, inputs, {"family": family, "label": label, "spec": spec})
         try:
             p = it.call(ctx, "Parser::from_string", [Slice(bs, "str")])
             r = it.call(ctx, "Parser::parse", [p])
@@ -812,6 +900,8 @@ def parse_body(par, lay, pid, L):
         same = len(toks) == L and all(x is y for x, y in zip(toks, bs))
         A.require("C16", z3.BoolVal(same), "green-text", "the token texts of the green tree, concatenated in order, do not reproduce the text byte for byte")
         out.seen("parse-tree-checked")
+        if family == "parse-skel":
+            out.seen("parse-skel-tree-checked")
         for d in dump:
             if d.startswith("N:"):
                 out.seen("node:" + d.split(":")[1])
@@ -839,6 +929,8 @@ OBLIGATIONS = {
         "eof": ["is_eof holds at cursor == L"],
         "parse": ["no panic reachable in Parser::from_string(text).parse() (lexer, recursive descent with error recovery, event list, build_tree, File::new)",
                   "every error span (lexer and parser) inside [0, L]"],
+        "parse-skel": ["no panic reachable in Parser::from_string(text).parse() (lexer, recursive descent with error recovery, event list, build_tree, File::new)",
+                  "every error span (lexer and parser) inside [0, L]"],
         "lines": ["no panic in compute_line_starts", "no panic in compute_line_column for every offset 0..L", "no panic in get_line_content for every line 0..lines+1"],
     },
     "C16": {
@@ -850,6 +942,8 @@ OBLIGATIONS = {
                  "new cursor is a char boundary", "every error span inside [0, L]", "token kind < EOF", "INV re-established"],
         "eof": ["is_eof holds at cursor == L (the last token ends at L)"],
         "parse": ["the parser returns a tree (no panic)", "length of the green root == L", "every green node's length == sum of its children's",
+                  "token texts of the green tree concatenated in order == the text, byte for byte", "every error span (lexer and parser) inside [0, L]"],
+        "parse-skel": ["the parser returns a tree (no panic)", "length of the green root == L", "every green node's length == sum of its children's",
                   "token texts of the green tree concatenated in order == the text, byte for byte", "every error span (lexer and parser) inside [0, L]"],
         "lines": ["line table == [0] + ends of LF / CRLF / lone CR, strictly increasing", "line_starts[line-1] + column - 1 == offset, offset inside that line, for every offset 0..L",
                   "get_line_content(k) == text[line_starts[k] .. line_starts[k+1]]; empty beyond; lines add up to the text", "no panic"],
@@ -1081,7 +1175,7 @@ def replay_violation(nat, pid, v):
         text.decode("utf-8")
     except UnicodeDecodeError:
         return False, {"text_hex": text.hex(), "observed": "witness is not UTF-8 (encoding bug)"}
-    sub = {"lines": "lines", "parse": "parse"}.get(v["family"], "tokens")
+    sub = {"lines": "lines", "parse": "parse", "parse-skel": "parse"}.get(v["family"], "tokens")
     cands = [text]
     if v["kind"] == "brace-invariant":
         # a broken invariant of the brace stack is latent: it shows when the next braces are read
@@ -1297,9 +1391,9 @@ TIERS = {
     # skel_k: free bytes per skeleton block; lines: text lengths of the line-table family; budget_s: exploration time the driver
     # plans for (it stops growing bounds when the prediction exceeds it); cap_s: deadline of the run (inconclusive beyond)
     "quick": {"whole": 2, "whole_more": 2, "parse": 2, "parse_more": 2, "step_min": 5, "step_max": 6, "skel_k": 2, "lines": 5,
-              "budget_s": 170, "cap_s": 900, "second_every": 200},
+              "budget_s": 170, "pskel_budget_s": 0, "cap_s": 1500, "second_every": 200},
     "thorough": {"whole": 2, "whole_more": 3, "parse": 2, "parse_more": 3, "step_min": 6, "step_max": 8, "skel_k": 3, "lines": 7,
-                 "budget_s": 1500, "cap_s": 2700, "second_every": 1000},
+                 "budget_s": 1500, "pskel_budget_s": 1200, "cap_s": 4500, "second_every": 1000},
 }
 
 
@@ -1323,6 +1417,10 @@ def run(pid, tier):
             os.unlink(nat)
         except OSError:
             pass
+
+
+def _only_not_supported(only):
+    raise Inconclusive("VERIF_LEX_FAMILIES=%s: only `parse-skel` can be run alone" % ",".join(only))
 
 
 def run2(pid, tier, t0, par, lay, nat):
@@ -1355,7 +1453,30 @@ def run2(pid, tier, t0, par, lay, nat):
             return False
         return True
 
-    reached = {"whole": cfg["whole"], "parse": cfg["parse"]}
+    reached = {"whole": cfg["whole"], "parse": cfg["parse"], "step": 0, "pskel": []}
+    only = [x for x in os.environ.get("VERIF_LEX_FAMILIES", "").split(",") if x]       # development filter
+    reached["only"] = only
+
+    # 0. parser skeletons with a symbolic hole: the tier's set of 1-byte holes always, 2-byte holes while their own budget permits
+    def pskel(sel):
+        return {"parse-skel/%s" % sid: parse_skeleton_body(par, lay, pid, sid, pat) for sid, pat, _ in sel}
+    if not only or "parse-skel" in only:
+        one = [x for x in PARSE_SKELETONS if x[1].count("?") == 1 and (tier == "thorough" or x[2] == "quick")]
+        two = [x for x in PARSE_SKELETONS if x[1].count("?") == 2 and tier == "thorough"]
+        t_ps = time.time()
+        dt1, _ = explore(pskel(one), 7, "parse-skel: %d skeletons with a 1-byte hole" % len(one))
+        reached["pskel"] += [(sid, pat) for sid, pat, _ in one]
+        for x in two:
+            predicted = dt1 / max(1, len(one)) * 40.0
+            if time.time() - t_ps + predicted > cfg["pskel_budget_s"]:
+                log("[%s] parse-skel %s not attempted: %.0fs spent on the family, predicted %.0fs, budget %ds" % (pid, x[0], time.time() - t_ps, predicted, cfg["pskel_budget_s"]))
+                continue
+            explore(pskel([x]), 9, "parse-skel %s (2-byte hole)" % x[0])
+            reached["pskel"].append((x[0], x[1]))
+        t_expl += time.time() - t_ps         # the other families keep their own budget
+    if only:
+        return finish(pid, tier, t0, cfg, reached, results, nat, nval, n_lex_texts, n_line_texts) if only == ["parse-skel"] else \
+            _only_not_supported(only)
     # 1. line table, end of file, skeletons; whole texts and the parser on every text up to the base length
     bodies = {}
     for L in range(0, cfg["lines"] + 1):
@@ -1395,6 +1516,8 @@ def run2(pid, tier, t0, par, lay, nat):
 
 
 OUTSIDE = [
+    "program shapes outside the parser skeleton list (bounds.parser_skeletons): the parser is decided on every text of <= 2-3 bytes and on the listed "
+    "skeletons with every filling of their 1-2 byte hole, not on grammar-directed programs, repository sources or their mutants",
     "the parser (parser.rs), tree construction (build_tree / green.rs) and File::new on texts longer than the parse bound below (2-3 bytes: every "
     "single token, every pair/triple of short tokens, i.e. mostly the error-recovery paths of parse_element); grammar-directed programs, "
     "repository sources and their mutants are not reached",
@@ -1457,7 +1580,7 @@ def finish(pid, tier, t0, cfg, reach, results, nat, nval, n_lex_texts, n_line_te
             if v["kind"] in seen:
                 continue
             seen.add(v["kind"])
-            key = "%s/%s" % (fam, v["kind"])
+            key = "%s/%s" % (name if fam == "parse-skel" else fam, v["kind"])      # parse-skel/<skeleton id>/<kind>
             replays[key] = replays.get(key, 0) + 1
             if replays[key] > 3:
                 continue            # at most three native replays per family and kind (a hanging lexer costs the full timeout each time)
@@ -1487,6 +1610,10 @@ def finish(pid, tier, t0, cfg, reach, results, nat, nval, n_lex_texts, n_line_te
             "token:NEWLINE", "token:WHITESPACE", "token:GT_GT_GT_EQ", "brace-stack-touched", "brace-stack-depth-0-after", "brace-stack-depth-1-after",
             "eof-checked", "parse-tree-checked", "parse-with-errors", "parse-without-errors", "node:ERROR_ELEM", "text-with-crlf", "text-with-lone-cr", "text-with-lf", "line-column-roundtrip-checked", "offset-on-later-line",
             "line-contents-checked"]
+    if reach.get("pskel"):
+        need += ["parse-skel-tree-checked", "node:FUNCTION", "node:BLOCK_EXPR"]
+    if reach.get("only"):
+        need = ["parse-skel-tree-checked", "node:FUNCTION", "node:BLOCK_EXPR"]       # development run of one family
     if reached >= 5 or cfg["skel_k"] >= 3:
         need.append("astral-character-inside-string")
     if reached >= 6:
@@ -1503,6 +1630,9 @@ def finish(pid, tier, t0, cfg, reach, results, nat, nval, n_lex_texts, n_line_te
         "parse_text_bytes": list(range(0, reach["parse"] + 1)),
         "parse_texts": "every well-formed UTF-8 byte string of these lengths, complete `Parser::from_string(text).parse()` (lexer, parser, build_tree)",
         "step_text_bytes_reached": reached,
+        "parser_skeletons": {sid: {"text": pat.replace("?", "\u25fb"), "hole_bytes": pat.count("?")} for sid, pat in reach.get("pskel", [])},
+        "parser_skeleton_holes": "every byte value(s) of the hole such that the whole text is well-formed UTF-8; complete Parser::from_string(text).parse()",
+        "families_run": reach.get("only") or "all",
         "step_states": "every text of 1..%d bytes, every cursor position on a char boundary in front of the end, brace stack depth 0..%d within INV "
                        "(complete for these lengths: depth 3 needs a cursor >= 9)" % (reached, MAX_DEPTH),
         "skeletons": {nm: pat for nm, pat in SKELETONS},
